@@ -2647,6 +2647,9 @@ func childRate(b run.Batch, r *ev.Result) {
 		}
 		// let the previous window pass (not needed for soundness, it makes bursts independent)
 		time.Sleep(c.ApiArchiveRate + time.Duration(10+rng.Intn(30))*time.Millisecond)
+		if bi%3 == 1 {
+			n = c.ApiArchiveLimit // exactly the limit, then a rotation, then two more (below): as little time as possible
+		}
 		run.Op("rate burst %d of %d concurrent GETs", bi, n)
 		start := make(chan struct{})
 		var wg sync.WaitGroup
@@ -2676,6 +2679,51 @@ func childRate(b run.Batch, r *ev.Result) {
 		}
 		close(start)
 		wg.Wait()
+		if bi%3 == 1 {
+			// a week rotation completes inside the rate window of this burst, more requests follow at once:
+			// the window belongs to the limiter, whatever else happens on the server meanwhile
+			off := w.S.VerifSnapshot(false).Offset
+			drv.SetClock(off + 3201 + uint32(rng.Intn(100)))
+			// (StepRotation returns only when the loop is back at its gate, one check period later: the
+			// rotation is released in the background and the window offset is watched instead)
+			stepped := make(chan int, 1)
+			go func() { stepped <- drv.StepRotation() }()
+			for i := 0; i < 2000 && w.S.VerifSnapshot(false).Offset == off; i++ {
+				time.Sleep(50 * time.Microsecond)
+			}
+			if w.S.VerifSnapshot(false).Offset != off {
+				r.Count("rate.rotations_inside_a_window", 1)
+			}
+			defer func() { <-stepped }()
+			var wg2 sync.WaitGroup
+			for k := 0; k < 4; k++ {
+				if k == 2 {
+					time.Sleep(3 * time.Millisecond) // whatever the rotation still does after its critical section has happened by now
+				}
+				wg2.Add(1)
+				go func() {
+					defer wg2.Done()
+					st, body, err := w.f.get(bi)
+					if err != nil {
+						r.Count("rate.errors", 1)
+						return
+					}
+					switch st {
+					case 200:
+						r.Count("rate.status_200", 1)
+						info := w.v.verify(body, w.priv, map[string]interface{}{"kind": "rate", "burst": bi, "after": "rotation"})
+						imu.Lock()
+						infos = append(infos, info)
+						imu.Unlock()
+					case http.StatusTooManyRequests:
+						r.Count("rate.status_429", 1)
+					default:
+						r.Count(fmt.Sprintf("rate.status_%d", st), 1)
+					}
+				}()
+			}
+			wg2.Wait()
+		}
 		// was this burst able to show a certain over-admission at all?
 		w.f.mu.Lock()
 		recs := append([]rec(nil), w.f.recs...)
